@@ -44,30 +44,8 @@ def scenarios(tier, rnd):
     return scs
 
 
-def run(work, tier, replay=None):
-    rnd = random.Random(work.seed)
-    work.build_harness()
-    mc_tot = dict(distinct=0, generated=0, violated=None)
-    if not replay:
-        for q, npl in ((1, 3), (2, 3)) if tier == "quick" else ((1, 3), (2, 4), (3, 4)):
-            pl = list(range(1, npl + 1))
-            cfg = ("SPECIFICATION RSpec\nCONSTANTS\n  Q = %d\n  Payloads = {%s}\n  ValidP = {%s}\n  EmptyP = {%s}\n  RetryOnError = FALSE\n"
-                   "INVARIANTS AtMostOnce OnlyAccepted QueueBounded OneAnswer\nPROPERTY EventuallyForwarded\nCHECK_DEADLOCK FALSE\n" % (
-                       q, ",".join(map(str, pl)), ",".join(map(str, pl[:2])), str(pl[-1])))
-            r = work.tlc("receipt-mc-%d" % q, "Receipt", cfg, workers=4, timeout=1200, dump=False)
-            if "error" in r or r.get("timeout"):
-                raise Inconclusive("Receipt model check failed: %s" % r.get("error", "timeout"))
-            mc_tot["distinct"] += r.get("distinct", 0)
-            mc_tot["generated"] += r.get("generated", 0)
-            mc_tot["violated"] = mc_tot["violated"] or r.get("violated")
-        # sensitivity: the design that posts again after a transport error must be refuted (a lost answer is not a lost receipt)
-        cfgr = ("SPECIFICATION RSpec\nCONSTANTS\n  Q = 1\n  Payloads = {1,2}\n  ValidP = {1}\n  EmptyP = {2}\n  RetryOnError = TRUE\n"
-                "INVARIANTS AtMostOnce\nCHECK_DEADLOCK FALSE\n")
-        rr = work.tlc("receipt-retry", "Receipt", cfgr, workers=2, timeout=300, dump=False)
-        if rr.get("violated") != "AtMostOnce":
-            raise Inconclusive("Receipt.tla no longer refutes the retry-on-error design (AtMostOnce)")
-        work.log("Receipt.tla: %d distinct states%s; retry-on-error design refuted" % (mc_tot["distinct"], " VIOLATED " + str(mc_tot["violated"]) if mc_tot["violated"] else ""))
-    scs = [s for s in read_ndjson(replay) if "ops" in s] if replay else scenarios(tier, rnd)
+def run_scenarios(work, scs):
+    """the scenarios on the real handlers (harness `receipt`), every record validated by ReceiptTrace; returns (fails, stats)"""
     k = min(8, len(scs))
     parts = [scs[i::k] for i in range(k)]
     fails, stats = [], dict(submits=0, accepted=0, too_busy=0, bad_request=0, forwarded=0, invalid_accepted=0)
@@ -116,6 +94,34 @@ def run(work, tier, replay=None):
                         stats["invalid_accepted"] += 1
                 if r["op"] == "drain":
                     stats["forwarded"] += len(r["forwarded"])
+    return fails, stats
+
+
+def run(work, tier, replay=None):
+    rnd = random.Random(work.seed)
+    work.build_harness()
+    mc_tot = dict(distinct=0, generated=0, violated=None)
+    if not replay:
+        for q, npl in ((1, 3), (2, 3)) if tier == "quick" else ((1, 3), (2, 4), (3, 4)):
+            pl = list(range(1, npl + 1))
+            cfg = ("SPECIFICATION RSpec\nCONSTANTS\n  Q = %d\n  Payloads = {%s}\n  ValidP = {%s}\n  EmptyP = {%s}\n  RetryOnError = FALSE\n"
+                   "INVARIANTS AtMostOnce OnlyAccepted QueueBounded OneAnswer\nPROPERTY EventuallyForwarded\nCHECK_DEADLOCK FALSE\n" % (
+                       q, ",".join(map(str, pl)), ",".join(map(str, pl[:2])), str(pl[-1])))
+            r = work.tlc("receipt-mc-%d" % q, "Receipt", cfg, workers=4, timeout=1200, dump=False)
+            if "error" in r or r.get("timeout"):
+                raise Inconclusive("Receipt model check failed: %s" % r.get("error", "timeout"))
+            mc_tot["distinct"] += r.get("distinct", 0)
+            mc_tot["generated"] += r.get("generated", 0)
+            mc_tot["violated"] = mc_tot["violated"] or r.get("violated")
+        # sensitivity: the design that posts again after a transport error must be refuted (a lost answer is not a lost receipt)
+        cfgr = ("SPECIFICATION RSpec\nCONSTANTS\n  Q = 1\n  Payloads = {1,2}\n  ValidP = {1}\n  EmptyP = {2}\n  RetryOnError = TRUE\n"
+                "INVARIANTS AtMostOnce\nCHECK_DEADLOCK FALSE\n")
+        rr = work.tlc("receipt-retry", "Receipt", cfgr, workers=2, timeout=300, dump=False)
+        if rr.get("violated") != "AtMostOnce":
+            raise Inconclusive("Receipt.tla no longer refutes the retry-on-error design (AtMostOnce)")
+        work.log("Receipt.tla: %d distinct states%s; retry-on-error design refuted" % (mc_tot["distinct"], " VIOLATED " + str(mc_tot["violated"]) if mc_tot["violated"] else ""))
+    scs = [s for s in read_ndjson(replay) if "ops" in s] if replay else scenarios(tier, rnd)
+    fails, stats = run_scenarios(work, scs)
     by = {s["rid"]: s for s in scs}
     violations, known, seen = [], [], set()
     for f in fails:
@@ -155,3 +161,14 @@ def run(work, tier, replay=None):
     print("OK property=C19 tier=%s: %d model states; %d scenarios, %d submissions (%d too busy, %d bad request), %d forwarded" % (
         tier, mc_tot["distinct"], len(scs), stats["submits"], stats.get("too_busy", 0), stats.get("bad_request", 0), stats["forwarded"]))
     return 0
+
+
+def answer_stage(work, tier):
+    """C04's view of receipts: every receipt request is answered exactly once, with the answer the protocol defines (the
+    submissions of a few scenarios, each record judged by ReceiptTrace's Ok_C19, which contains that clause)"""
+    rnd = random.Random(work.seed + 4)
+    scs = scenarios("quick", rnd)
+    scs = scs[:24] if tier == "quick" else scs
+    fails, stats = run_scenarios(work, scs)
+    by = {s["rid"]: s for s in scs}
+    return [dict(rid=f["rid"], rec=f["rec"], scenario=by.get(f["rid"])) for f in fails if f["rec"]["op"] == "submit"], stats
